@@ -159,3 +159,17 @@ def handler_reraises_all_paths(program, fi, handler) -> Optional[bool]:
         return False
 
     return block(handler.body)
+
+
+def simple_assignments(root):
+    """(target node, value node) for every assignment under root; `a, b = x, y` is read as a = x; b = y"""
+    for st in ast.walk(root):
+        if isinstance(st, ast.Assign):
+            for t in st.targets:
+                if isinstance(t, (ast.Tuple, ast.List)) and isinstance(st.value, (ast.Tuple, ast.List)) and len(t.elts) == len(st.value.elts) and not any(isinstance(e, ast.Starred) for e in list(t.elts) + list(st.value.elts)):
+                    for tt, vv in zip(t.elts, st.value.elts):
+                        yield tt, vv
+                else:
+                    yield t, st.value
+        elif isinstance(st, ast.AnnAssign) and st.value is not None:
+            yield st.target, st.value
